@@ -350,7 +350,10 @@ Definition run (op : N) (a : V) : V :=
   (* ---- HDLC frames (C09) ---- *)
   | 100 (* frame_make_to_bytes *) =>
       (* kind dest src payload segmented final ssn rsn *)
-      v_res VBytes (do f <- frame_make (as_kind (arg 0 a)) (as_addr (arg 1 a)) (as_addr (arg 2 a)) (as_optbytes (arg 3 a))
+      (* the address objects are constructed first (validators run), then the frame *)
+      let mk (v : V) := addr_make (as_z (arg 0 v)) (as_optz (arg 1 v)) (as_b (arg 2 v)) in
+      v_res VBytes (do d <- mk (arg 1 a); do s <- mk (arg 2 a);
+                    do f <- frame_make (as_kind (arg 0 a)) d s (as_optbytes (arg 3 a))
                                         (as_b (arg 4 a)) (as_b (arg 5 a)) (as_z (arg 6 a)) (as_z (arg 7 a));
                     frame_to_bytes (as_kind (arg 0 a)) f)
   | 101 (* frame_from_bytes *) => v_res v_frame (frame_from_bytes (as_kind (arg 0 a)) (as_bytes (arg 1 a)))
